@@ -1,4 +1,5 @@
 import RoutinatorModel.Proofs.Records
+import RoutinatorModel.Proofs.ArchiveRead
 import RoutinatorModel.Generated.RecordLayouts
 /-!
 # C27 — Corrupt local data never crashes Routinator (codec part)
@@ -21,8 +22,13 @@ against the real allocator by the harness) — see notes/C27.md.
 The unrepaired policies violate the bound: `C27_unrepaired_body_unbounded`,
 `C27_unrepaired_map_unbounded` (negation witnesses).
 
-The archive container (`src/utils/archive.rs`: bucket count, chain walks) is covered by the
-harness oracle, see notes/C27.md.
+The archive container (`src/utils/archive.rs`) is modelled in `Model/ArchiveRead.lean` (file
+header, index, object headers, chain walks, SipHash-2-4 bucket selection, `verify`, `fetch`,
+`objects()`, `load_state`). Here the content is: with `open` validating the bucket count and the
+chain walks bounded (`ArchiveParams`, extracted), no read of any file panics or walks forever, every
+walk reads at most `size / 33 + 1` object headers and `verify`'s vector holds at most that many
+entries (`C27_archive_*`); without the repairs a 30-byte file panics and a 112-byte file is walked
+forever (`C27_unrepaired_bucket_count_panics`, `C27_unrepaired_walk_endless`).
 -/
 namespace RoutinatorModel
 open Codec
@@ -160,6 +166,121 @@ theorem C27_unrepaired_map_unbounded :
 /-- Non-vacuity: the bound is attained up to the constant — a valid 4 KiB object body is read
 with a request of about twice its size. -/
 example : (readVec Generated.params 4096 (List.replicate 4096 0)).allocs = [2 * 4096 + 32] := by
+  decide +kernel
+
+/-! ## The archive container -/
+
+/-- The per-run obligation for the archive reader: both repairs are in the source. -/
+theorem C27_archive_generated_ok :
+    Generated.archiveParams.checkIndex = true ∧ Generated.archiveParams.boundWalks = true := by
+  decide
+
+/-- `Archive::open` itself only ever reports an I/O error (EOF) or `Corrupt`. -/
+theorem C27_archive_open_safe (A : ArchiveParams) (file : ByteArray) : Safe (openArchive A file) :=
+  openArchive_safe A file
+
+/-- For every file that `open` accepts: `find`/`fetch`/`load_state`, `verify` and `objects()` end
+with a value, an I/O error or `Corrupt` — never with a panic, never without end — and read at most
+`size / 33 + 1` object headers. -/
+theorem C27_archive_no_panic_no_hang (A : ArchiveParams) (hC : A.checkIndex = true)
+    (hB : A.boundWalks = true) (file : ByteArray) (a : Opened) (h : openArchive A file = .ok a) :
+    (∀ name, Safe (find A a name).1 ∧ (find A a name).2 ≤ a.size / headerSize + 1) ∧
+    (∀ name, Safe (fetch A a name)) ∧
+    (∀ P L, Safe (loadState A P L a)) ∧
+    Safe (verify A a) ∧
+    Safe (objects A a).1 ∧ (objects A a).2 ≤ a.size / headerSize + 1 := by
+  have hI := (openArchive_indexOk hC h).1
+  exact ⟨fun name => find_safe A hB a hI name, fun name => fetch_safe A hB a hI name,
+    fun P L => loadState_safe A hB P L a hI, (verify_safe A hB a hI).1,
+    (objects_safe A hB a hI).1, (objects_safe A hB a hI).2⟩
+
+/-- `verify` collects at most `size / 33 + 1` `(position, size)` pairs: its vector (16-byte
+entries, amortised doubling) stays below `size + 64` bytes. -/
+theorem C27_archive_verify_vector_bound (A : ArchiveParams) (hC : A.checkIndex = true)
+    (hB : A.boundWalks = true) (file : ByteArray) (a : Opened) (h : openArchive A file = .ok a)
+    (n m : Nat) (hv : verify A a = .ok (n, m)) :
+    n + m ≤ a.size / headerSize + 1 ∧ 2 * 16 * (n + m) ≤ a.size + 64 := by
+  have hI := (openArchive_indexOk hC h).1
+  have h1 := (verify_safe A hB a hI).2 n m hv
+  refine ⟨h1, ?_⟩
+  have : a.size / headerSize * 33 ≤ a.size := by
+    unfold headerSize; exact Nat.div_mul_le_self _ _
+  omega
+
+/-- The pinned (repaired) source, any file. -/
+theorem C27_archive_generated (file : ByteArray) (a : Opened)
+    (h : openArchive Generated.archiveParams file = .ok a) :
+    Safe (verify Generated.archiveParams a) ∧
+    Safe (loadState Generated.archiveParams Generated.params Generated.repositoryState a) ∧
+    Safe (objects Generated.archiveParams a).1 :=
+  have hh := C27_archive_no_panic_no_hang Generated.archiveParams C27_archive_generated_ok.1
+    C27_archive_generated_ok.2 file a h
+  ⟨hh.2.2.2.1, hh.2.2.1 _ _, hh.2.2.2.2.1⟩
+
+/-! ### Negation witnesses for the archive reader -/
+
+/-- 30 octets: magic, key, bucket count 0. -/
+def zeroBucketFile : ByteArray :=
+  ByteArray.mk (#[0x52, 0x54, 0x4e, 0x52, 1, 0x43] ++ Array.replicate 16 0 ++ Array.replicate 8 0)
+
+/-- Without the bucket-count check `open` accepts the file and `load_state` divides by zero. -/
+theorem C27_unrepaired_bucket_count_panics :
+    let A : ArchiveParams := ⟨false, true⟩
+    ∃ a, openArchive A zeroBucketFile = .ok a ∧
+      loadState A Generated.params Generated.repositoryState a = .error .panic := by
+  intro A
+  have h : (match openArchive A zeroBucketFile with
+      | .ok a => decide (loadState A Generated.params Generated.repositoryState a = .error .panic)
+      | .error _ => false) = true := by decide +kernel
+  cases ho : openArchive A zeroBucketFile with
+  | error e => rw [ho] at h; cases h
+  | ok a => rw [ho] at h; exact ⟨a, rfl, of_decide_eq_true h⟩
+
+/-- …and with the check the same file is `Corrupt` (discard and recreate). -/
+example : (openArchive ⟨true, true⟩ zeroBucketFile).toOption.isNone = true ∧
+    (∀ a, openArchive ⟨true, true⟩ zeroBucketFile ≠ .ok a) := by
+  refine ⟨by decide +kernel, fun a h => ?_⟩
+  have : (openArchive ⟨true, true⟩ zeroBucketFile).toOption.isNone = true := by decide +kernel
+  rw [h] at this
+  cases this
+
+/-- 112 octets: one bucket, one object (`"x"`) whose `next` pointer is its own position 46. -/
+def cycleFile : ByteArray := ByteArray.mk (#[0x52, 0x54, 0x4e, 0x52, 1, 0x43] ++ Array.replicate 16 0 ++
+  #[1,0,0,0,0,0,0,0] ++ #[46,0,0,0,0,0,0,0] ++ #[0,0,0,0,0,0,0,0] ++
+  #[66,0,0,0,0,0,0,0] ++ #[46,0,0,0,0,0,0,0] ++ #[0] ++ #[1,0,0,0,0,0,0,0] ++ #[0,0,0,0,0,0,0,0] ++
+  #[0x78] ++ Array.replicate 32 0)
+
+def cycleArchive : Opened := ⟨cycleFile, List.replicate 16 0, 1⟩
+
+/-- Looking for `"state"` in that file without a step bound never ends: whatever budget the walk
+is given, it uses all of it. -/
+theorem C27_unrepaired_walk_endless (fuel : Nat) (steps : Nat) :
+    findLoop ⟨true, false⟩ cycleArchive stateName fuel 46 steps = (.error .hang, steps + fuel) := by
+  have hread : ∃ h, readHeaderName cycleArchive.file 46 = .ok (h, [0x78]) ∧ h.next = 46 := by
+    have : (readHeaderName cycleFile 46).toOption.map (fun p => (p.1.next, p.2)) = some (46, [0x78]) := by
+      decide +kernel
+    cases hr : readHeaderName cycleFile 46 with
+    | error e => rw [hr] at this; cases this
+    | ok p =>
+      obtain ⟨h, n⟩ := p
+      rw [hr] at this
+      simp only [Except.toOption, Option.map_some, Option.some.injEq, Prod.mk.injEq] at this
+      exact ⟨h, by rw [← this.2]; exact hr, this.1⟩
+  obtain ⟨h, hr, hn⟩ := hread
+  induction fuel generalizing steps with
+  | zero => simp [findLoop, outOfFuel]
+  | succ fuel ih =>
+    simp only [findLoop, hr]
+    have hne : ¬ ([0x78] : List UInt8) = stateName := by decide
+    rw [if_neg hne, hn, ih (steps + 1)]
+    congr 1
+    omega
+
+/-- The repaired reader stops after `112 / 33 + 1 = 4` headers and reports `Corrupt`. -/
+example : find ⟨true, true⟩ cycleArchive stateName = (.error .corrupt, 4) := by decide +kernel
+
+/-- `open` accepts the cyclic file (the index fits), so the walks are really reached. -/
+example : (openArchive ⟨true, true⟩ cycleFile).toOption.map (fun a => a.bucketCount) = some 1 := by
   decide +kernel
 
 end RoutinatorModel
